@@ -17,6 +17,7 @@ def check(ctx):
     rep.floor("zone-mapping call sites (R-TZ)", ntzr, 10)
     hayson.check_member_loop(ctx, rep)
     ntd = hayson.check_typed_deserializers(ctx, rep)
+    hayson.check_text_verbatim(ctx, rep)
     nmg = hayson.check_member_guards(ctx, rep)
     hayson.check_nonfinite_spellings(ctx, rep)
     noc = hayson.check_optional_members_complete(ctx, rep)
